@@ -9,12 +9,13 @@ package c06
 
 import (
 	"context"
+	"errors"
 	"fmt"
 	"net"
 	"os"
-	"sync"
 	"sort"
 	"strings"
+	"sync"
 	"testing"
 	"time"
 
@@ -23,6 +24,7 @@ import (
 	"github.com/libp2p/go-libp2p/core/network"
 	"github.com/libp2p/go-libp2p/core/peer"
 	"github.com/libp2p/go-libp2p/core/peerstore"
+	"github.com/libp2p/go-libp2p/core/transport"
 	"github.com/libp2p/go-libp2p/p2p/host/eventbus"
 	ma "github.com/multiformats/go-multiaddr"
 
@@ -48,14 +50,29 @@ func (g *upgradeGater) InterceptUpgraded(c network.Conn) (bool, control.Disconne
 	return true, 0
 }
 
+// closeErrConn closes for real and then reports an error.
+type closeErrConn struct{ transport.CapableConn }
+
+var errInjectedClose = errors.New("injected: close reported an error")
+
+func (c closeErrConn) Close() error {
+	c.CapableConn.Close()
+	return errInjectedClose
+}
+
+func (c closeErrConn) CloseWithError(code network.ConnErrorCode) error {
+	c.CapableConn.CloseWithError(code)
+	return errInjectedClose
+}
+
 func TestSim(t *testing.T) { common.Main(t, common.Harness{Property: "C06", Run: run}) }
 
 type call struct{ inv, ret uint64 }
 
 type connRec struct {
-	id     string
-	peer   int
-	conn   network.Conn
+	id        string
+	peer      int
+	conn      network.Conn
 	firstSeen uint64
 }
 
@@ -78,12 +95,12 @@ type notifiee struct {
 }
 
 type harness struct {
-	o       *common.Outcome
-	conns   map[string]*connRec
-	peerIdx map[peer.ID]int
-	streams map[string][]uint64 // conn id -> stamps at which S's stream handler was invoked
-	activity int                // callbacks + events + streams recorded so far
-	inflight int                // callbacks currently executing
+	o                  *common.Outcome
+	conns              map[string]*connRec
+	peerIdx            map[peer.ID]int
+	streams            map[string][]uint64 // conn id -> stamps at which S's stream handler was invoked
+	activity           int                 // callbacks + events + streams recorded so far
+	inflight           int                 // callbacks currently executing
 	closeInv, closeRet uint64
 }
 
@@ -197,6 +214,10 @@ func run(t *testing.T, tape *simrt.Tape) *common.Outcome {
 	if tmix != 0 {
 		defer simrand.Install(uint64(tmix))()
 	}
+	// fault (1 run in 4): every second TCP connection S gets from its transport reports an ERROR from Close /
+	// CloseWithError after having closed (a transport may: the socket is gone, the error is about lingering data, an
+	// already-closed session ...). Nothing in the statement depends on what Close returns.
+	closeErrs := g.Int(4) == 3
 	o.Logf("peers=%d notifiees=%d slowSub=%v subBuf=%d stall=%d closeRace=%v/%d transports=%d", nPeers, nNotif, slowSub, subBuf, stall, closeRace, closeAfter, tmix)
 	for i, n := range notifs {
 		o.Logf(" notifiee%d onConnected=%d onDisconnected=%d", i, n.onConn, n.onDisc)
@@ -210,8 +231,9 @@ func run(t *testing.T, tape *simrt.Tape) *common.Outcome {
 		taken   bool
 		stamp   uint64
 		nEvents int
-		conn  []network.Connectedness
-		open  [][]string
+		conn    []network.Connectedness
+		open    [][]string
+		truth   []network.Connectedness
 	}
 	var q quiescent
 	sClosed := false
@@ -233,7 +255,19 @@ func run(t *testing.T, tape *simrt.Tape) *common.Outcome {
 				upgradedOnce.Do(func() { close(upgraded) })
 			}
 		}}
-		S, err := simhost.New(n, simhost.Opts{Key: simhost.DetKey(1), IP: "10.0.0.1", Port: 4001, Security: "insecure", Bus: bus, Limited: isLimited, Gater: gater, QUIC: tmix != 0})
+		var wrapConn func(transport.CapableConn) transport.CapableConn
+		if closeErrs {
+			k := 0
+			wrapConn = func(c transport.CapableConn) transport.CapableConn {
+				k++
+				if k%2 == 0 {
+					return c
+				}
+				h.o.Fault("transport-close-reports-error")
+				return closeErrConn{c}
+			}
+		}
+		S, err := simhost.New(n, simhost.Opts{Key: simhost.DetKey(1), IP: "10.0.0.1", Port: 4001, Security: "insecure", Bus: bus, Limited: isLimited, Gater: gater, QUIC: tmix != 0, WrapConn: wrapConn})
 		if err != nil {
 			o.Trouble = err.Error()
 			return
@@ -461,16 +495,23 @@ func run(t *testing.T, tape *simrt.Tape) *common.Outcome {
 				}
 				before := h.activity
 				q.stamp = simrt.Stamp()
-				q.conn, q.open = nil, nil
+				q.conn, q.open, q.truth = nil, nil, nil
 				for _, p := range peers {
 					q.conn = append(q.conn, S.Swarm.Connectedness(p.ID))
 					var ids []string
+					truth := network.NotConnected // what the listed connections say: any direct one = Connected, only limited ones = Limited
 					for _, c := range S.Swarm.ConnsToPeer(p.ID) {
 						h.see(c)
 						ids = append(ids, c.ID())
+						if !c.Stat().Limited {
+							truth = network.Connected
+						} else if truth == network.NotConnected {
+							truth = network.Limited
+						}
 					}
 					sort.Strings(ids)
 					q.open = append(q.open, ids)
+					q.truth = append(q.truth, truth)
 				}
 				// ... and the same window AFTER the reading: nothing may have been in flight while it was taken
 				simrt.WaitIdle()
@@ -496,6 +537,12 @@ func run(t *testing.T, tape *simrt.Tape) *common.Outcome {
 		return o
 	}
 	if res.StepLimit {
+		if h.closeInv != 0 && h.closeRet == 0 {
+			// Swarm.Close was invoked and has not returned after hundreds of thousands of scheduling decisions during which
+			// everything else kept running (tickers, keep-alives): it waits for something that never comes
+			o.Violate("C06/swarm-close-does-not-return", "Swarm.Close was invoked at stamp %d and had not returned when the run was cut off after %d scheduling decisions (virtual time %v)", h.closeInv, res.Steps, res.Virtual)
+			return o
+		}
 		o.Trouble = "step limit"
 		return o
 	}
@@ -613,6 +660,11 @@ func run(t *testing.T, tape *simrt.Tape) *common.Outcome {
 			}
 			if fmt.Sprint(want) != fmt.Sprint(q.open[p]) {
 				o.Violate("C06/listed-conns-not-truth", "peer p%d: at quiescence ConnsToPeer=%v, connections with Connected and without Disconnected: %v", p, q.open[p], want)
+			}
+			// Connectedness() itself must be what the listed, still-open connections say (it is the same code that
+			// feeds the events, so comparing the last event only with it would let both be wrong together)
+			if q.conn[p] != q.truth[p] {
+				o.Violate("C06/connectedness-vs-conns/kind", "peer p%d: at quiescence Connectedness()=%v but the %d listed connections make it %v", p, q.conn[p], len(q.open[p]), q.truth[p])
 			}
 			if (len(q.open[p]) > 0) != (q.conn[p] != network.NotConnected) {
 				o.Violate("C06/connectedness-vs-conns", "peer p%d: Connectedness=%v with %d listed connections", p, q.conn[p], len(q.open[p]))
